@@ -21,9 +21,6 @@ def bounded(op, a, b):
     """Evaluate `a op b` with Python's own operators after resource pre-checks; EXC if it raises, None if too big."""
     if a is EXC or b is EXC:
         return EXC
-    if a is None or b is None:
-        # None as a value (the literal None) is wrapped, see leaf()
-        pass
     ia = isinstance(a, int)
     ib = isinstance(b, int)
     try:
@@ -94,7 +91,7 @@ def arith(draw, depth=0, maxdepth=4):
         elif k < 17:
             v = draw(st.sampled_from([True, False]))
         elif k < 18:
-            return 'None', EXC  # None only ever raises TypeError in arithmetic
+            return 'None', None  # the real value: `not None` is True, arithmetic on it raises TypeError
         elif k < 19:
             v = draw(st.sampled_from(['a', '', 'ab']))
         else:
